@@ -230,11 +230,31 @@ def check_C08(ctx):
     for s in bad:
         root = gen.mkcmd("app", decls=decls, spec=s, policy=0, before={"k": "ret"}, after={"k": "ret"})
         runs.append({"op": "run", "env": {}, "version": None, "root": root, "argv": ["x"]})
-    res = correspond(ctx, runs, ["outcome", "trace"], "Run on specs")
+    # ... also when the spec error sits in a sub-command: it is compiled when Run descends into it, when help
+    # descends through it, and when the help of its parent is printed (after a rejection of the parent too)
+    sub_decls = [gen.mkopt("bool", "a", **{"def": ["false"]}), gen.mkarg("strings", "X")]
+    for s in bad[:ctx.scale(60, 400)]:
+        for root_spec, root_decls in (("", []), ("[-a]", [gen.mkopt("bool", "a", **{"def": ["false"]})])):
+            for where in (0, 1):
+                good = gen.mkcmd("ok", decls=copy.deepcopy(sub_decls), spec="[-a] X...", before={"k": "ret"}, after={"k": "ret"})
+                broken = gen.mkcmd("sub s", decls=copy.deepcopy(sub_decls), spec=s, before={"k": "ret"}, after={"k": "ret"})
+                subs = [good, broken] if where else [broken, good]
+                for pol in (0, 1, 2):
+                    for argv in ([], ["-h"], ["sub"], ["s", "x"], ["sub", "-h"], ["sub", "--", "-h"], ["ok", "x"], ["ok"], ["ok", "-h"],
+                                 ["nosuch"], ["-a", "sub", "x"], ["-z"], ["--", "sub"]):
+                        root = gen.mkcmd("app", decls=copy.deepcopy(root_decls), spec=root_spec, policy=pol, subs=copy.deepcopy(subs),
+                                         before={"k": "ret"}, after={"k": "ret"},
+                                         action={"k": "ret"} if rng.random() < 0.5 else None)
+                        runs.append({"op": "run", "env": {}, "version": None, "root": root, "argv": argv})
+    res = correspond(ctx, runs, ["outcome", "trace", "stderr"], "Run on specs")
+    npanic = 0
     for c in runs:
         a, _ = res[c["id"]]
+        if a["outcome"][0] == "panic" and str(a["outcome"][1]).startswith("parse:"):
+            npanic += 1
         if a["outcome"][0] == "panic" and a["trace"]:
             ctx.violation("panic-before-hooks", "spec %r: callbacks ran before the panic: %r" % (c["root"]["spec"], a["trace"]), case=c)
+    ctx.stream("Run on specs", 0, spec_panics=npanic)
     ctx.stream("strings", len(strings), exhaustive_up_to=k, exhaustive_strings=exhaustive, **stats)
     ctx.sample({"spec": "- X", "expected": "error at 1"})
     ctx.sample({"spec": "[-a] X...", "expected": "compiles"})
